@@ -3,4 +3,3 @@ CONSTANTS
   MaxDepth = 1
 INVARIANT TemplatesWellFormed
 INVARIANT BreakViolatesItsRule
-INVARIANT EveryRuleCanBeBroken
